@@ -438,7 +438,10 @@ func explain(a *analysis, depth int) verdict {
 				return v
 			}
 		}
-		if inD6Class(src) {
+		// D6 as it stands after the repair of its worst consequence (lexing
+		// resumed inside the name): only the reported POSITIONS are off, so
+		// only span mismatches are attributed to it
+		if inD6Class(src) && only(sigSpan) {
 			if try(sigD6, neutraliseD6(src), a.isValue) {
 				return v
 			}
